@@ -86,7 +86,12 @@ pub fn gen_filter(rng: &mut Rng, n: usize, out: &mut Vec<String>) {
         out.push(format!("filter {}", hex(&s)));
     }
     for _ in 0..n / 20 { let k = rng.below(10) as usize; out.push(format!("filter {}", hex(&rng.bytes(k)))); }
-    for w in ["(cn:dnMatch:=x)", "(:dnFoo:=x)", "(entryDN:dnSubtreeMatch:=dc=example,dc=com)", "(cn:dn:=x)", "(cn:dn:dnMatch:=x)", "(&)", "(|)", "cn=x", "(a=*)", "(a=**)", "(a=*b**c)", "(a=\\2a)", "(a=\\2)", "(=x)", "(a=x))", "((a=x)", "(2=v)", "(a;b=c)", "(a;=c)"] {
+    for w in ["(cn:dnMatch:=x)", "(:dnFoo:=x)", "(entryDN:dnSubtreeMatch:=dc=example,dc=com)", "(cn:dn:=x)", "(cn:dn:dnMatch:=x)", "(&)", "(|)", "cn=x", "(a=*)", "(a=**)", "(a=*b**c)", "(a=\\2a)", "(a=\\2)", "(=x)", "(a=x))", "((a=x)", "(2=v)", "(a;b=c)", "(a;=c)",
+              // numeric OIDs with arcs beyond 64 bits (2.25.<UUID>), at and around u64::MAX, zero arcs, leading zeros
+              "(2.25.329800735698586629295641978511506172918=v)", "(1.18446744073709551615=v)", "(1.18446744073709551616=v)", "(1.2.99999999999999999999999999=*)", "(a:2.25.329800735698586629295641978511506172918:=v)",
+              "(1.0.3=v)", "(1.02=v)", "(0.0=v)",
+              // bare items (no parentheses) whose value ends or begins with whitespace: the value is the whole rest of the string
+              "cn=Smith ", "cn=Smith\t", " cn=x", "cn=x\n", "cn>=a ", "cn:dn:=v ", "(cn=x) ", " (cn=x)"] {
         out.push(format!("filter {}", hex(w.as_bytes())));
     }
 }
@@ -141,6 +146,15 @@ pub fn gen_entry(rng: &mut Rng, n: usize, out: &mut Vec<String>) {
         out.push(format!("entry {}", show_tree(&t)));
     }
     for _ in 0..n / 2 { out.push(format!("utf8 {}", hex(&rand_bytes_utf8ish(rng)))); }
+    // large values: text with a multi-byte character across the 64 KiB mark, 90 KiB of three-byte characters, one invalid byte far in
+    let mut v1 = vec![b'a'; 65535]; v1.extend("é".as_bytes()); v1.extend(vec![b'a'; 10]);
+    let v2: Vec<u8> = "€".as_bytes().iter().cycle().take(3 * 30_000).copied().collect();
+    let mut v3 = vec![b'a'; 70_000]; v3.push(0xff); v3.extend(vec![b'a'; 5]);
+    let mut v4 = vec![b'a'; 65536]; v4.extend("日本".as_bytes());
+    for (k, v) in [v1, v2, v3, v4].into_iter().enumerate() {
+        let t = entry(b"cn=large", &[(b"cn", vec![b"x".to_vec()]), (format!("big{}", k).as_bytes(), vec![b"small".to_vec(), v])]);
+        out.push(format!("entry {}", show_tree(&t)));
+    }
 }
 
 const RCS: &[i64] = &[0, 1, 2, 3, 4, 5, 6, 7, 8, 10, 11, 12, 14, 16, 32, 49, 50, 53, 68, 80, 88, 118, 127, 128, 255, 256, 65535, 65536, 0x7fffffff, 0xffffffff];
@@ -186,8 +200,9 @@ pub fn gen_url(rng: &mut Rng, n: usize, out: &mut Vec<String>) {
         let attrs: Vec<String> = (0..1 + rng.below(4)).map(|_| rng.pick(&["cn", "sn", "*", "+", "1.1", "mail;lang-en", "2.5.4.3", "jpegPhoto;binary"]).to_string()).collect();
         let scope = *rng.pick(&["base", "one", "sub"]);
         let kinds = ["bindname", "x-bindpw", "1.3.6.1.4.1.10094.1.5.1", "1.3.6.1.4.1.10094.1.5.2", "1.3.6.1.4.1.1466.20037", "x-unknown", "1.2.3.4", "BindName", "X-BINDPW", "bindname2", "x-bindpw-sha256", "bindnam", "x-bind", "BINDNAMES"];
-        let nex = rng.below(4) as usize;
-        let exts: Vec<String> = (0..nex).map(|_| { let k = *rng.pick(&kinds); let crit = rng.chance(1, 3);
+        // 0-3 extensions as a rule; one URL in twelve lists all five recognised ones first and something else after them
+        let nex = if i % 12 == 5 { 5 + 1 + rng.below(3) as usize } else { rng.below(4) as usize };
+        let exts: Vec<String> = (0..nex).map(|j| { let k = if i % 12 == 5 && j < 5 { kinds[j] } else { *rng.pick(&kinds) }; let crit = rng.chance(1, 3);
             let v = rand_unicode(rng); format!("{}{}{}", if crit { "!" } else { "" }, k, if k.ends_with("20037") && rng.chance(2, 3) { String::new() } else { format!("={}", penc(v.as_bytes(), &unreserved, rng.chance(1, 2))) }) }).collect();
         let present = rng.below(16);   // subset of {attrs, scope, filter, exts}
         let maxattrs = i % 9 == 8;
@@ -245,6 +260,13 @@ pub fn run(lane: &str, args: &[&str]) -> (String, Option<String>) {
                     let f = format!("(cn={})", r);
                     let want = crate::lanes::frame::c(TagClass::Context, 3, vec![octets(b"cn"), octets(&b)]);
                     match ldap3::parse_filter(&f) { Ok(t) if tag_to_tree(t.clone()) == want => {}, _ => oracle = Some("escaped value is not inert in (cn=<escaped>)".to_string()) }
+                    // ... also in the bare form of an item (no enclosing parentheses), where the value runs to the end of the string,
+                    // and as the value of an extensible match
+                    if !b.is_empty() {
+                        match ldap3::parse_filter(&format!("cn={}", r)) { Ok(t) if tag_to_tree(t.clone()) == want => {}, _ => { oracle.get_or_insert("escaped value is not inert in the bare item cn=<escaped>".to_string()); } }
+                        let want3 = crate::lanes::frame::c(TagClass::Context, 9, vec![p(TagClass::Context, 2, b"cn"), p(TagClass::Context, 3, &b)]);
+                        match ldap3::parse_filter(&format!("(cn:={})", r)) { Ok(t) if tag_to_tree(t.clone()) == want3 => {}, _ => { oracle.get_or_insert("escaped value is not inert in (cn:=<escaped>)".to_string()); } }
+                    }
                     let f2 = format!("(cn=a*{}*b)", r);
                     if !b.is_empty() { match ldap3::parse_filter(&f2) { Ok(t) => { let t = tag_to_tree(t);
                         let want2 = crate::lanes::frame::c(TagClass::Context, 4, vec![octets(b"cn"), crate::lanes::frame::seq(vec![p(TagClass::Context, 0, b"a"), p(TagClass::Context, 1, &b), p(TagClass::Context, 2, b"b")])]);
